@@ -156,6 +156,9 @@ def gen_arg(rng, ctr, shorts, kind, opts):
         pvs = []
         for j in range(rng.choice([1, 2, 3, 4])):
             pv = {"name": "pv" + n + "z" + "abcd"[j] + "m" * rng.choice([0, 0, 3, 9])}
+            if NONASCII_PV[0]:
+                # names whose byte length, character count and display width all differ (stream help-nonascii)
+                pv["name"] += rng.choice(["", "\u00e9", "\u00e9" * 4, "\u6f22", "\u6f22" * 3, "e\u0301" * 2, "\u00e9\u6f22"])
             s = hexs(pv["name"])
             if rng.random() < 0.5:
                 pv["help"] = "ph" + n + "z" + "abcd"[j] + rng.choice(["", " w w", " word " * 6])
@@ -427,6 +430,30 @@ def case_sx(c, width, which):
 
 BOUNDARY_WIDTHS = [0, 1, 2, 3, 5, 7, 8, 9, 10, 11, 12, 13, 14, 15, 16, 19, 20, 21, 24, 25, 26, 30, 39, 40, 41, 50, 60, 79, 80, 81,
                    99, 100, 101, 120, 199, 200]
+
+
+NONASCII_PV = [False]
+
+
+def gen_nonascii(tier, rng, n):
+    """the long and short help of commands whose possible-value names are not ASCII: outside the Coq model's domain, so
+    implementation only, judged by the oracle (no panic, bounded padding, hidden values absent; seeded change seed3/C12-3
+    padded the long-help value list by byte length)"""
+    NONASCII_PV[0] = True
+    try:
+        cases = []
+        while len(cases) < n:
+            ctr = Ctr()
+            c = gen_cmd(rng, ctr, "p", rng.choice([0, 1]), {"nopt": [1, 2, 3], "npos": [0, 1, 2]})
+            sx = cmd_sx(c)
+            if "(x-pv" not in sx:
+                continue
+            for wh in ("long", "short", which_sx("flag-help", ())):
+                w = rng.choice(BOUNDARY_WIDTHS) if rng.random() < 0.5 else rng.randrange(0, 201)
+                cases.append(case_sx(sx, w, wh))
+        return cases
+    finally:
+        NONASCII_PV[0] = False
 
 
 def gen_random(tier, rng, n):
@@ -857,7 +884,7 @@ def left_bound(level):
         w = 6 + len(a.get("long", "")) + 4 + sum(len(x) + 3 for x in names) * reps + 8
         b = max(b, w)
         for pv in a["pvs"]:
-            b = max(b, 14 + len(pv["name"]) + 4)
+            b = max(b, 14 + sum(2 if ord(ch) > 0x2e80 else 1 for ch in pv["name"]) + 4)
     for s in level["subs"]:
         b = max(b, len(s["name"]) + len(s.get("long_flag", "")) + 16)
     return b
@@ -1402,6 +1429,8 @@ def streams(tier, rng):
                describe=describe(hdg, "headings")),
         Stream("help-template-tags", tpt, oracle=template_tags_oracle, area="help", project=project, nontrivial=nontrivial,
                describe=describe(tpt, "template-tags")),
+        Stream("help-nonascii", gen_nonascii(tier, rng, 300 if q else 6000), oracle=oracle, area=None, nontrivial=nontrivial,
+               describe={"what": "possible-value names with multi-byte, wide and combining characters; long, short, --help"}),
         Stream("help-templates", gen_templates(tier, rng, 200 if q else 4000), oracle=template_oracle, area=None,
                nontrivial=nontrivial),
         Stream("help-f32", ["(helpf32 %d %d)" % (t, w) for (t, w) in ([(300, 300)] if q else [(1200, 1200), (70000, 40)])],
